@@ -8,6 +8,17 @@ If we do, like in MySQL lexer, the new rules like `DATASOURCE = r'\bDATASOURCE\b
 Then, for an input `DATASOURCE`, the last matched regexp is `STRING`, and the token is incorrectly classified 
 as a string.
 """
+def _unescape(body, pattern):
+    # decode the body of a string literal in one left-to-right pass: \' -> ', \" -> ", '' -> ',
+    # any other back-slash pair is kept as it is
+    def repl(m):
+        c = m.group(1)
+        if c is None:
+            return "'"
+        return c if c in '\'"' else m.group(0)
+    return re.sub(pattern, repl, body, flags=re.S)
+
+
 class MindsDBLexer(Lexer):
     reflags = re.IGNORECASE
     ignore = ' \t\r'
@@ -321,12 +332,12 @@ class MindsDBLexer(Lexer):
 
     @_(r"'(?:\\.|[^'])*(?:''(?:\\.|[^'])*)*'")
     def QUOTE_STRING(self, t):
-        t.value = t.value.replace('\\"', '"').replace("\\'", "'").replace("''", "'")
+        t.value = "'" + _unescape(t.value[1:-1], r"\\(.)|''") + "'"
         return t
 
     @_(r'"(?:\\.|[^"])*"')
     def DQUOTE_STRING(self, t):
-        t.value = t.value.replace('\\"', '"').replace("\\'", "'")
+        t.value = '"' + _unescape(t.value[1:-1], r"\\(.)") + '"'
         return t
 
     @_(r'\n+')
